@@ -21,7 +21,7 @@ from checks.c07_atom_move import bond_table
 
 PROPERTY = "C09"
 LEVEL = "exploration"
-RULE = ("(trace) fixed set 2..30 atoms, mobile tree 2..12 atoms, restraint lists, every non-empty subset of deformation "
+RULE = ("(trace) fixed set 2..30 atoms, mobile tree 1..12 atoms (input arrays in several memory layouts), restraint lists, every non-empty subset of deformation "
         "types, step budget 1..2000 (quick mostly <=150), numpy seed drawn by Hypothesis; every evaluation, acceptance "
         "call and atom move of the search is recorded and replayed against a reference model of the loop. (acceptance) "
         "accept_metropolis on generated energy pairs: 100000 (quick) / 400000 seeded draws per ratio, 6-sigma band around "
@@ -38,8 +38,8 @@ ASSUMPTIONS = [
 @st.composite
 def case_strategy(draw, tier):
     nf = draw(st.integers(2, 30))
-    nm = draw(st.integers(2, 12))
-    edges = draw(gen.graph_edges(nm, draw(st.sampled_from(["tree", "chain", "star"]))))
+    nm = draw(st.sampled_from([1, 2, 2] + list(range(3, 13))))          # a one-atom mobile molecule: only types 0 and 1 apply
+    edges = draw(gen.graph_edges(nm, draw(st.sampled_from(["tree", "chain", "star"])))) if nm > 1 else []
     rng = np.random.default_rng(draw(gen.SEEDS))
     mob = gen.walk_geometry(nm, edges, rng, lo=0.15, hi=0.45)
     fixed = mob[rng.integers(0, nm, nf)] + rng.normal(0, 0.25, (nf, 3)) + rng.uniform(-0.5, 0.5, 3)
@@ -53,7 +53,7 @@ def case_strategy(draw, tier):
     return {"fixed": fixed.tolist(), "mobile": mob.tolist(), "edges": edges, "lengths": lengths,
             "restr": restr, "deform": list(deform), "steps": steps,
             "sigma": draw(st.sampled_from([0.5, 0.2, 1.0])), "width": draw(st.sampled_from([0.1, 0.3, 1.0])),
-            "seed": draw(gen.SEEDS)}
+            "seed": draw(gen.SEEDS), "mem": [draw(st.sampled_from(gen.ARRAY_LAYOUTS)), draw(st.sampled_from(gen.ARRAY_LAYOUTS))]}
 
 
 class Recorder:
@@ -127,7 +127,8 @@ def check(case):
     rec.install()
     try:
         np.random.seed(case["seed"])
-        fixed_in, mob_in = fixed.copy(), mob0.copy()
+        mem = case.get("mem", ["C", "C"])
+        fixed_in, mob_in = gen.as_layout(fixed, mem[0]), gen.as_layout(mob0, mem[1])
         result = lib("search", gaddlemaps.minimize_molecules, fixed_in, mob_in, mob0.mean(axis=0), case["sigma"],
                      budget, restr, tab, case["width"], deform)
     finally:
@@ -211,7 +212,7 @@ def check(case):
                                 "(differs by %.3e)%s" % (label, np.abs(result - held).max(), best_note))
     nt = acc_worse > 0 and rejections > 0 and resets_after_wait > 0
     return {"nontrivial": nt,
-            "classes": ["deform:" + "".join(map(str, sorted(deform))), "restraints" if restr else "no-restraints",
+            "classes": ["mobile:%s" % ("1" if len(mob0) == 1 else "2+"), "deform:" + "".join(map(str, sorted(deform))), "restraints" if restr else "no-restraints",
                         "accepted-worse" if acc_worse else "no-accepted-worse",
                         "budget:%s" % ("<=20" if budget <= 20 else "<=150" if budget <= 150 else ">150")] +
                        ["move:" + k for k in moves],
